@@ -142,6 +142,7 @@ def run_case(ch, mode, history, raw, cuts):
                     return sp.expect_exact(pats, timeout=T, async_=async_, **kw_w)
                 return sp.expect_list([p if p in (EOF, TIMEOUT) else re.compile(p, re.DOTALL) for p in pats], timeout=T, async_=async_, **kw_w)
             out = None
+            unbounded0 = env.unbounded_waits
             try:
                 if how == 's':
                     r = call(False)
@@ -192,6 +193,12 @@ def run_case(ch, mode, history, raw, cuts):
                 okind = out[0]
             if T is not None and elapsed > T + B:
                 viol = ('late', '%s call with timeout %r took %.3fs' % ('awaited' if how == 'a' else 'blocking', T, elapsed))
+                break
+            if T is not None and env.unbounded_waits > unbounded0:
+                # virtual time does not pass while the peer is forced to act: a timed call that goes to sleep with no
+                # timer pending would wait for ever on a quiet stream
+                viol = ('unbounded-wait', '%s call with timeout %r went into a wait without a deadline (nothing but the peer could end it)'
+                        % ('awaited' if how == 'a' else 'blocking', T))
                 break
             end = [TIMEOUT] if okind == 'TIMEOUT' else [EOF] if okind == 'EOF' else []
             ref = refs.naive_expect(kind, refpats, pending, chunks + end, W)
